@@ -49,6 +49,7 @@ PROFILES = {
     "fn1": prof("MC_Fn", "MovesFn", 1, srcs=[9], allow_undef=True),
     "str1": prof("MC_Fn", "MovesStr", 1, srcs=[10], allow_undef=True),
     "cast1": prof("MC_Fn", "MovesCast", 1, srcs=[11], allow_undef=True),
+    "gsub4": prof("MC_Focus", "MovesGS", 4, srcs=[1, 6]),
     "tall2": prof("MC_Focus", "MovesTall", 2, srcs=[12]),
     "ty2": prof("MC_Focus", "MovesTy", 2, srcs=[1, 8, 4]),
     "err2": prof("MC_Focus", "MovesErr", 2, srcs=[1, 4]),
@@ -85,7 +86,7 @@ CHECKS = {
     "C08": dict(
         level="model_checking",
         clauses=SUBQ | {"rows", "order", "names", "export-error", "accept", "flat-correct"}, backends={"sqlite"},
-        phases=dict(quick=[dict(kind="flat", depth=5), dict(kind="flat", depth=3, paths=True), dict(profile="wins3"), dict(profile="agg3"), dict(profile="joins3"), dict(profile="union2")],
+        phases=dict(quick=[dict(kind="flat", depth=5), dict(kind="flat", depth=3, paths=True), dict(profile="gsub4"), dict(profile="wins3"), dict(profile="agg3"), dict(profile="joins3"), dict(profile="union2")],
                     thorough=[dict(kind="flat", depth=6, srcs=[1, 6, 7], timeout=1800), dict(kind="flat", depth=4, paths=True), dict(profile="wins4"), dict(profile="agg3"), dict(profile="win3"),
                               dict(profile="joins4"), dict(profile="union3")]),
     ),
@@ -113,7 +114,7 @@ CHECKS = {
     "C04": dict(
         level="model_checking",
         clauses=GEN_CLAUSES_SPEC,
-        phases=dict(quick=[dict(profile="agg3")], thorough=[dict(profile="agg3")]),
+        phases=dict(quick=[dict(profile="agg3"), dict(profile="gsub4")], thorough=[dict(profile="agg3"), dict(profile="gsub4"), dict(profile="wins4")]),
     ),
     "C05": dict(
         level="model_checking",
@@ -210,47 +211,6 @@ MANIFEST_TEXT = {
              "the specification predicts the complete table after every step, and every distinct prefix is executed on Polars and on SQLite "
              "and compared cell by cell with the prediction (an independent row-by-row semantics, so a defect common to both back ends is caught).",
         note=TRUST, technique="TLA+ spec + TLC exhaustive generation, replay on real code against predicted observations"),
-    "C03": dict(
-        level="model_checking",
-        clauses={"rows", "order", "names", "accept", "export-error", "cross-rows"},
-        phases=dict(quick=[dict(kind="laws"), dict(profile="fn1")], thorough=[dict(kind="laws"), dict(profile="fn1")]),
-    ),
-    "C17": dict(
-        level="model_checking",
-        clauses={"rows", "order", "names", "accept", "export-error", "cross-rows", "errclass", "cast-accept", "cast-internal"},
-        phases=dict(quick=[dict(kind="castmatrix"), dict(profile="cast1")], thorough=[dict(kind="castmatrix"), dict(profile="cast1")]),
-    ),
-    "C18": dict(
-        level="model_checking",
-        clauses={"rows", "order", "names", "accept", "export-error", "cross-rows"},
-        phases=dict(quick=[dict(profile="str1")], thorough=[dict(profile="str1")]),
-    ),
-    "C04": dict(
-        level="model_checking",
-        clauses=GEN_CLAUSES_SPEC,
-        phases=dict(quick=[dict(profile="agg3")], thorough=[dict(profile="agg3")]),
-    ),
-    "C05": dict(
-        level="model_checking",
-        clauses=GEN_CLAUSES_SPEC,
-        phases=dict(quick=[dict(profile="win2"), dict(profile="wins3")],
-                    thorough=[dict(profile="win2"), dict(profile="win3"), dict(profile="wins4")]),
-    ),
-    "C03": dict(
-        level="model_checking",
-        clauses={"rows", "order", "names", "accept", "export-error", "cross-rows"},
-        phases=dict(quick=[dict(kind="laws"), dict(profile="fn1")], thorough=[dict(kind="laws"), dict(profile="fn1")]),
-    ),
-    "C17": dict(
-        level="model_checking",
-        clauses={"rows", "order", "names", "accept", "export-error", "cross-rows", "errclass", "cast-accept", "cast-internal"},
-        phases=dict(quick=[dict(kind="castmatrix"), dict(profile="cast1")], thorough=[dict(kind="castmatrix"), dict(profile="cast1")]),
-    ),
-    "C18": dict(
-        level="model_checking",
-        clauses={"rows", "order", "names", "accept", "export-error", "cross-rows"},
-        phases=dict(quick=[dict(profile="str1")], thorough=[dict(profile="str1")]),
-    ),
     "C04": dict(
         text="TLC enumerates group_by / summarize pipelines over the aggregate focus alphabet (every aggregate, filter=, expressions over "
              "aggregates, computed / boolean / nullable keys, empty and single-row inputs, verb contexts before and after); the specification's "
